@@ -1,0 +1,29 @@
+//go:build verif
+
+// Package verifhook provides named synchronisation points for the external
+// verification harness (build tag "verif"). A handler installed by the harness
+// is called at every point; it may block to hold the calling goroutine.
+package verifhook
+
+import "sync/atomic"
+
+type handlerFunc func(name string, args ...string)
+
+var handler atomic.Pointer[handlerFunc]
+
+// SetHandler installs (or, with nil, removes) the handler.
+func SetHandler(f func(name string, args ...string)) {
+	if f == nil {
+		handler.Store(nil)
+		return
+	}
+	h := handlerFunc(f)
+	handler.Store(&h)
+}
+
+// Point reports that execution reached the named point.
+func Point(name string, args ...string) {
+	if h := handler.Load(); h != nil {
+		(*h)(name, args...)
+	}
+}
